@@ -145,8 +145,8 @@ lies after the index; a context error only once the context is done, after a pre
 cannot be complete is not allowed — in particular ending normally after a proper prefix. -/
 def iterClause (st : MState) (k : Key) (i : Int) (cm : CtxMode) (stop : Option Nat) (t : Term)
     (items : List String) : Option Clause :=
-  if i < -1 then none else
   if t = .locked then some .iterLocked else
+  if i < -1 then none else
   match st.spec.lookup k with
   | none =>
     if t = .ctx then
@@ -218,7 +218,7 @@ def monStep (st : MState) (r : Rec) (obs : Obs) : MState × Option Clause :=
       | .iter t items nested =>
         match iterClause st k i cm stop t items with
         | some cl => some cl
-        | none => if t = .locked then none else nestedClause st script nested
+        | none => nestedClause st script nested
       | _ => some .badIter)
   | .stat => (st, statClause st obs)
   | .concurrent => (st, if obs = .consistent then none else some .concurrent)
